@@ -728,6 +728,37 @@ Definition check_physical (S : schema) (F G : features) (l : list sexp) : option
       end
   end.
 
+(** the plumbing history of side a, when the case reports one:
+    (plumbing (transport http|ws) (history (env "f"..) | (init) | (op) ..)) — every operation must
+    run with the case's feature set F according to [ws_effective] / [http_effective] *)
+Definition dec_pstep (s : sexp) : option pstep :=
+  match untag s with
+  | Some (t, args) =>
+      if String.eqb t "env" then option_map PEnv (dec_names args)
+      else if String.eqb t "init" then Some PInit
+      else if String.eqb t "op" then Some POp
+      else None
+  | None => None
+  end.
+Definition same_set (a b : features) : bool := subset a b && subset b a.
+Definition check_plumbing (F : features) (l : list sexp) : option sexp :=
+  match field "plumbing" l with
+  | None => None
+  | Some pl =>
+      match field1 "transport" pl, field "history" pl with
+      | Some (SSym t), Some hs =>
+          match map_opt dec_pstep hs with
+          | Some h =>
+              let eff := if String.eqb t "ws" then ws_effective [] None h else http_effective [] h in
+              if is_nil eff then Some (v_bad "plumbing-without-operation")
+              else if forallb (fun o => match o with Some f => same_set f F | None => false end) eff then None
+              else Some (v_mismatch "plumbing-model-predicts-another-feature-set" [])
+          | None => Some (v_bad "plumbing-history")
+          end
+      | _, _ => Some (v_bad "plumbing")
+      end
+  end.
+
 Definition check_case (S : schema) (F G : features) (accepted : bool) (l : list sexp) (sd : sexp) : sexp :=
   if negb accepted then
     if schema_ok S then v_mismatch "schema-ok" [of_bool true; of_bool false]
@@ -754,7 +785,7 @@ Definition check_case (S : schema) (F G : features) (accepted : bool) (l : list 
                   | None =>
                       if negb (schema_ok S) then v_mismatch "schema-ok" [of_bool false; of_bool true]
                       else
-                      match first_some (compare_req S E F G) rs' with
+                      match (match check_plumbing F l with Some v => Some v | None => first_some (compare_req S E F G) rs' end) with
                       | Some v => v
                       | None =>
                         match check_physical S F G l with
@@ -764,6 +795,7 @@ Definition check_case (S : schema) (F G : features) (accepted : bool) (l : list 
                           let deleted := negb (sexp_eqb (enc_schema E) sd) in
                           let matters := existsb (fun x => String.eqb x "introspect-gating-matters" || String.eqb x "chain-gating-matters" || String.eqb x "sdoc-gating-matters") cl in
                           v_ok (case_kind l :: "schema-accepted" :: edit_class l true ++
+                                (match field "plumbing" l with Some _ => ["plumbing-history-checked"] | None => [] end) ++
                                 (if deleted then ["something-erased"] else ["nothing-erased"]) ++
                                 cl ++ (if deleted && matters then ["nontrivial"] else []))%list
                         end
